@@ -4,7 +4,8 @@
 * `Leaf`/`M` : the matcher AST (leaves = matchers without sub-matchers; `M` = combinators)
 * `matchImpl : Bool → M → V → Verdict` follows the *algorithms of the code* (what `match()` does,
   including which exception propagates for values outside a matcher's domain).  The `Bool` selects
-  which of the two set-iteration orders carried by every `MatchesSetwise` node is used
+  which of the two builds of the expression is evaluated (they differ in the hash-set order of the
+  matchers of every `MatchesSetwise` node, which the verdict used to depend on; it no longer does)
   (`set(self.matchers)` iterates in an order that depends on object addresses; the harness forces the
   order given in the input, see `harness/props/c06.py`).
 
@@ -242,7 +243,9 @@ inductive M
   | allMatch (m : M)
   | anyMatch (m : M)
   | listwise (firstOnly : Bool) (ms : List M)
-  /-- `ka`/`kb`: slot of each matcher in the hash set, for the two builds of the expression -/
+  /-- `ka`/`kb`: slot of each matcher in a hash set of the matchers, for the two builds of the expression
+  (the pinned tree iterated `set(self.matchers)`; the verdict no longer depends on it, the harness still
+  builds the expression twice with these orders forced) -/
   | setwise (ka kb : List Nat) (ms : List M)
   | structure (attrs : List Nat) (ms : List M)
   | dict (kind : DictKind) (ks : List Nat) (ms : List M)
@@ -331,7 +334,7 @@ def applyPre : PreFn → V → Except ExcCls V
       | .exc e false => .ok (.str ((toString e.arg).toList.map Char.toNat))
       | _ => .error .typeError
 
-/-! ### MatchesSetwise: greedy assignment in set-iteration order -/
+/-! ### MatchesSetwise: pairing of the values with the matchers -/
 
 /- stable insertion sort of keyed items (structural, so that closed terms evaluate by `decide`) -/
 def insertKey {α : Type} (x : Nat × α) : List (Nat × α) → List (Nat × α)
@@ -341,43 +344,32 @@ def sortKey {α : Type} : List (Nat × α) → List (Nat × α)
   | [] => []
   | x :: xs => insertKey x (sortKey xs)
 
-/-- iteration order of `set(self.matchers)`: matcher indices by ascending slot -/
-def orderIdx (keys : List Nat) (n : Nat) : List Nat :=
-  (sortKey ((List.range n).map fun i => (keys.getD i 0, i))).map (·.2)
+/-- is there a one-to-one pairing of the values (rows of `matrix`: which matchers accept the value) with
+the matcher indices `rem` that uses every index?  Tries every choice. -/
+def assignB : List (List Bool) → List Nat → Bool
+  | [], rem => rem.isEmpty
+  | row :: rows, rem => rem.any fun i => row.getD i false && assignB rows (rem.erase i)
 
-inductive Pick | found (i : Nat) | absent | err (c : ExcCls)
+def firstRaise : List Verdict → Option ExcCls
+  | [] => none
+  | .raised c :: _ => some c
+  | _ :: rs => firstRaise rs
 
-/-- `for matcher in remaining_matchers: if matcher.match(value) is None: …; break` -/
-def pick (row : List Verdict) : List Nat → Pick
-  | [] => .absent
-  | i :: is => match row.getD i .mismatch with
-      | .match => .found i
-      | .raised c => .err c
-      | .mismatch => pick row is
-
-def greedy (rowOf : V → List Verdict) : List V → List Nat → List V → Except ExcCls (List Nat × List V)
-  | [], rem, nm => .ok (rem, nm)
-  | x :: xs, rem, nm => match pick (rowOf x) rem with
-      | .found i => greedy rowOf xs (rem.erase i) nm
-      | .absent => greedy rowOf xs rem (nm ++ [x])
-      | .err c => .error c
-
-/-- the tail of `MatchesSetwise.match` once the loop is over -/
-def setwiseFinish (rowOf : V → List Verdict) (rem : List Nat) (nm : List V) : Verdict :=
-  if nm.isEmpty && rem.isEmpty then .match
-  else if nm.isEmpty then .mismatch            -- "matchers left over"
-  else if rem.isEmpty then .mismatch           -- "values left over"
-  else
-    let c := min rem.length nm.length
-    -- Annotate(msg, MatchesListwise(remaining[:c])).match(not_matched[:c])
-    seqAll false (List.zipWith (fun i x => (rowOf x).getD i .mismatch) (rem.take c) (nm.take c))
-
-def setwiseImpl (rowOf : V → List Verdict) (keys : List Nat) (n : Nat) (v : V) : Verdict :=
+/-- `MatchesSetwise.match`: every matcher is asked about every value exactly once (value by value, the
+matchers in the order given): the first exception propagates.  Then as many values as possible are
+paired with matchers (augmenting paths); the verdict is a match iff nothing is left over on either side,
+i.e. iff a one-to-one pairing of all values with all matchers exists — the pairing algorithm itself is
+not transcribed, its outcome is computed by exhaustive search (`assignB`).  All the left-over branches
+return a Mismatch (the last one re-matches left-over matchers against left-over values listwise: in a
+maximum pairing no left-over matcher accepts a left-over value). -/
+def setwiseImpl (rowOf : V → List Verdict) (n : Nat) (v : V) : Verdict :=
   match pyIter v with
   | none => .raised .typeError
-  | some xs => match greedy rowOf xs (orderIdx keys n) [] with
-      | .error c => .raised c
-      | .ok (rem, nm) => setwiseFinish rowOf rem nm
+  | some xs =>
+    let rows := xs.map rowOf
+    match firstRaise rows.flatten with
+    | some c => .raised c
+    | none => .ofBool (assignB (rows.map fun r => r.map Verdict.isMatch) (List.range n))
 
 /-! ### dict matchers and MatchesStructure -/
 def somes : List (Option Verdict) → List Verdict
@@ -443,8 +435,7 @@ def matchImpl (sel : Bool) : M → V → Verdict
   | .listwise fo ms, v => match pyIter v with
       | none => .raised .typeError
       | some xs => listwiseImpl fo ms.length (somes (matchZip sel ms (xs.map some))) v
-  | .setwise ka kb ms, v =>
-      setwiseImpl (fun x => matchRow sel ms x) (if sel then ka else kb) ms.length v
+  | .setwise _ _ ms, v => setwiseImpl (fun x => matchRow sel ms x) ms.length v
   | .structure attrs ms, v => structImpl attrs (matchZip sel ms (attrs.map (getAttr v)))
   | .dict kind ks ms, v => match v with
       | .dict oks ovs => dictImpl kind ks (matchZip sel ms (ks.map fun k => lookupKey k oks ovs)) v
